@@ -175,6 +175,8 @@ pub trait Kind<'s>: ValueInput<'s, Token = Self::Tok, Span = Self::Spn> + Sized 
     const HAS_SLICE: bool;
     fn slice_node<R: Er<'s, Self>>(p: BP<'s, Self, R>) -> BP<'s, Self, R>;
     fn map_slice_node<R: Er<'s, Self>>(p: BP<'s, Self, R>) -> BP<'s, Self, R>;
+    /// value-building formulation of to_slice(): map_with(|_, e| e.slice())
+    fn slice_node_explicit<R: Er<'s, Self>>(p: BP<'s, Self, R>) -> BP<'s, Self, R>;
 }
 
 pub trait Er<'s, I: Kind<'s>>:
@@ -304,6 +306,9 @@ impl<'s> Kind<'s> for &'s str {
     fn map_slice_node<R: Er<'s, Self>>(p: BP<'s, Self, R>) -> BP<'s, Self, R> {
         p.map_with(|v, e| Val::pair(str_slice_val(e.slice()), v)).boxed()
     }
+    fn slice_node_explicit<R: Er<'s, Self>>(p: BP<'s, Self, R>) -> BP<'s, Self, R> {
+        p.map_with(|_v, e| str_slice_val(e.slice())).boxed()
+    }
 }
 impl<'s, T: Tk> Kind<'s> for &'s [T] {
     type Tok = T;
@@ -314,6 +319,9 @@ impl<'s, T: Tk> Kind<'s> for &'s [T] {
     }
     fn map_slice_node<R: Er<'s, Self>>(p: BP<'s, Self, R>) -> BP<'s, Self, R> {
         p.map_with(|v, e| Val::pair(tok_slice_val::<T>(e.slice()), v)).boxed()
+    }
+    fn slice_node_explicit<R: Er<'s, Self>>(p: BP<'s, Self, R>) -> BP<'s, Self, R> {
+        p.map_with(|_v, e| tok_slice_val::<T>(e.slice())).boxed()
     }
 }
 
@@ -379,6 +387,8 @@ pub struct Bld<'s, I: Kind<'s>, R: Er<'s, I>> {
     pub ids: HashMap<*const G, u32>,
     pub observed: bool,
     pub rec_style: RecStyle,
+    /// C04: build every value-eliding combinator in its value-building formulation
+    pub explicit: bool,
     recs: HashMap<u8, BP<'s, I, R>>,
 }
 
@@ -390,7 +400,7 @@ macro_rules! toks {
 
 impl<'s, I: Kind<'s>, R: Er<'s, I>> Bld<'s, I, R> {
     pub fn new(g: &G, observed: bool) -> Self {
-        Bld { ids: number(g), observed, rec_style: RecStyle::Func, recs: HashMap::new() }
+        Bld { ids: number(g), observed, rec_style: RecStyle::Func, explicit: false, recs: HashMap::new() }
     }
 
     pub fn build(&mut self, g: &G) -> BP<'s, I, R> {
@@ -414,6 +424,8 @@ impl<'s, I: Kind<'s>, R: Er<'s, I>> Bld<'s, I, R> {
         match sink {
             Sink::Vec => rep.collect::<Vec<Val>>().map(Val::List).boxed(),
             Sink::Str => unreachable!(),
+            Sink::Count if self.explicit => rep.collect::<Vec<Val>>().map(|v| Val::Num(v.len() as u64)).boxed(),
+            Sink::Unit | Sink::Bare if self.explicit => rep.collect::<Vec<Val>>().map(|_v| Val::Unit).boxed(),
             Sink::Count => rep.count().map(|n| Val::Num(n as u64)).boxed(),
             Sink::Unit => rep.collect::<()>().map(|()| Val::Unit).boxed(),
             Sink::Bare => rep.map(|()| Val::Unit).boxed(),
@@ -573,12 +585,24 @@ impl<'s, I: Kind<'s>, R: Er<'s, I>> Bld<'s, I, R> {
                 })
                 .boxed()
             }
+            G::Ext { take, ok, tag } if self.explicit => {
+                let g2 = G::Custom { take: *take, ok: *ok, tag: *tag };
+                self.node(&g2)
+            }
             G::Ext { take, ok, tag } => {
                 Parser::<'s, I, Val, Ex<R>>::boxed(Ext(ExtP { take: *take, ok: *ok, tag: *tag }))
             }
             Then(a, c) => {
                 let (a, c) = (self.build(a), self.build(c));
                 a.then(c).map(|(a, c)| Val::pair(a, c)).boxed()
+            }
+            IgnoreThen(a, c) if self.explicit => {
+                let (a, c) = (self.build(a), self.build(c));
+                a.then(c).map(|(_, c)| c).boxed()
+            }
+            ThenIgnore(a, c) if self.explicit => {
+                let (a, c) = (self.build(a), self.build(c));
+                a.then(c).map(|(a, _)| a).boxed()
             }
             IgnoreThen(a, c) => {
                 let (a, c) = (self.build(a), self.build(c));
@@ -663,6 +687,14 @@ impl<'s, I: Kind<'s>, R: Er<'s, I>> Bld<'s, I, R> {
                 a.and_is(c).boxed()
             }
             Rewind(a) => self.build(a).rewind().boxed(),
+            Delim { inner, open, close } if self.explicit => {
+                let (o, i, c) = (self.build(open), self.build(inner), self.build(close));
+                o.then(i).then(c).map(|((_, i), _)| i).boxed()
+            }
+            PaddedBy(a, p) if self.explicit => {
+                let (a, p) = (self.build(a), self.build(p));
+                p.clone().then(a).then(p).map(|((_, a), _)| a).boxed()
+            }
             Delim { inner, open, close } => {
                 let (o, i, c) = (self.build(open), self.build(inner), self.build(close));
                 i.delimited_by(o, c).boxed()
@@ -675,6 +707,11 @@ impl<'s, I: Kind<'s>, R: Er<'s, I>> Bld<'s, I, R> {
                 let t = *t;
                 self.build(a).map(move |v| Val::mark(t, v)).boxed()
             }
+            To(a, t) if self.explicit => {
+                let v = Val::mark(*t, Val::Unit);
+                self.build(a).map(move |_| v.clone()).boxed()
+            }
+            Ignored(a) if self.explicit => self.build(a).map(|_| Val::Unit).boxed(),
             To(a, t) => self.build(a).to(Val::mark(*t, Val::Unit)).boxed(),
             Ignored(a) => self.build(a).ignored().map(|()| Val::Unit).boxed(),
             Filter(a, p) => {
@@ -705,6 +742,10 @@ impl<'s, I: Kind<'s>, R: Er<'s, I>> Bld<'s, I, R> {
                     })
                     .boxed()
             }
+            ToSlice(a) if self.explicit => {
+                let a = self.build(a);
+                I::slice_node_explicit::<R>(a)
+            }
             ToSlice(a) => {
                 let a = self.build(a);
                 I::slice_node::<R>(a)
@@ -713,6 +754,13 @@ impl<'s, I: Kind<'s>, R: Er<'s, I>> Bld<'s, I, R> {
                 let a = self.build(a);
                 I::map_slice_node::<R>(a)
             }
+            ToSpan(a) if self.explicit => self
+                .build(a)
+                .map_with(|_v, e| {
+                    let (s, e2) = e.span().se();
+                    Val::Span(s, e2)
+                })
+                .boxed(),
             ToSpan(a) => self
                 .build(a)
                 .to_span()
@@ -918,6 +966,11 @@ impl<'s, I: Kind<'s>, R: Er<'s, I>> Bld<'s, I, R> {
 
 pub fn build<'s, I: Kind<'s>, R: Er<'s, I>>(g: &G, observed: bool) -> BP<'s, I, R> {
     Bld::<'s, I, R>::new(g, observed).build(g)
+}
+pub fn build_explicit<'s, I: Kind<'s>, R: Er<'s, I>>(g: &G) -> BP<'s, I, R> {
+    let mut b = Bld::<'s, I, R>::new(g, false);
+    b.explicit = true;
+    b.build(g)
 }
 pub fn build_with<'s, I: Kind<'s>, R: Er<'s, I>>(g: &G, observed: bool, rs: RecStyle) -> BP<'s, I, R> {
     let mut b = Bld::<'s, I, R>::new(g, observed);
